@@ -58,7 +58,8 @@ def state_cuckoo(f, counting):
 def state_qf(f):
     out = io.StringIO()
     f.print(file=out)
-    return {"hashes": f.get_hashes(), "elements_added": f.elements_added, "quotient": f.quotient, "metadata": out.getvalue(), "load_factor": f.load_factor}
+    return {"hashes": f.get_hashes(), "elements_added": f.elements_added, "quotient": f.quotient, "metadata": out.getvalue(), "load_factor": f.load_factor,
+            "settings": (f.auto_expand, f.max_load_factor, f.size, f.remainder, f.bits_per_elm)}
 
 
 def same(ctx, before, after, what):
@@ -559,7 +560,7 @@ def wl_quotient(ctx, rng, case):
     done = []
     for _ in range(rng.randint(5, 14)):
         h = rng.choice(U)
-        c = rng.choice(["check_alt", "check", "in", "get_hashes", "hashes", "print", "validate", "props", "merge_source"])
+        c = rng.choice(["check_alt", "check", "in", "get_hashes", "hashes", "print", "validate", "props", "merge_source", "hashes_partial", "merge_source_refused"])
         done.append(c)
         if c == "check_alt":
             f.check_alt(h)
@@ -571,6 +572,26 @@ def wl_quotient(ctx, rng, case):
             f.get_hashes()
         elif c == "hashes":
             list(f.hashes())
+        elif c == "hashes_partial":
+            # the walk over the stored hashes is abandoned early (next(), any(), a break): still only a look
+            it = f.hashes()
+            for _ in range(rng.randint(0, 2)):
+                next(it, None)
+            if rng.random() < 0.5:
+                del it
+            any(x == h for x in f.hashes())
+        elif c == "merge_source_refused":
+            # this filter as the source of a merge that is REFUSED part-way (a small receiver that may not grow)
+            small = P.QuotientFilter(quotient=3, auto_expand=False)
+            for x in U[:7]:
+                try:
+                    small.add_alt(x ^ 0x5A5A)
+                except QuotientFilterError:
+                    break
+            try:
+                small.merge(f)
+            except QuotientFilterError:
+                ctx.count("refused_merges_with_this_filter_as_source")
         elif c == "print":
             f.print(file=io.StringIO())
         elif c == "validate":
